@@ -14,8 +14,8 @@
 (*                                                                                              *)
 (* Everything the property needs is recomputed here from the raw fields: record -> input pair    *)
 (* (by id), "faithful" (string equality with the original mate), "reason" (an RR tag exists),    *)
-(* record well-formedness, stream well-formedness (lines = 4 x records), strategy attribution    *)
-(* (MX tag = shortName), the number of pairs that had to be consumed.                            *)
+(* record well-formedness, stream well-formedness (lines = 4 x records), the number of pairs     *)
+(* that had to be consumed.  The MX tag is recorded but not used.                                *)
 EXTENDS TraceLib, DemuxProps
 
 VARIABLE l
@@ -28,7 +28,7 @@ TStream(e, st) ==
     [ wf   |-> st.nlines = 4 * Len(st.recs),
       recs |-> [i \in DOMAIN st.recs |->
                   [ id |-> st.recs[i].id,
-                    s  |-> IndexOf(e.strategies, st.recs[i].mx),
+                    s  |-> 0,      \* no attribution: an MX tag may name the demultiplexer a composite strategy delegates to
                     ok |-> st.recs[i].c0 = "@" /\ st.recs[i].sl = st.recs[i].ql ]] ]
 
 RStream(e, st, m) ==
@@ -75,8 +75,8 @@ RunVerdict(e) ==
 Diverges(e) ==
     /\ Has(e, "scn")
     /\ LET o == ObsOf(e)
-           ids(q) == [i \in DOMAIN q |-> <<q[i].id, q[i].s>>]
-           exp(q) == [i \in DOMAIN q |-> <<q[i][1], q[i][2]>>]
+           ids(q) == [i \in DOMAIN q |-> q[i].id]
+           exp(q) == [i \in DOMAIN q |-> q[i][1]]
        IN \/ Len(o.tgt) # 1
           \/ ids(o.tgt[1][1].recs) # exp(e.scn.exp.tgt[1])
           \/ (e.hasRej /\ Len(o.rej) = 1 /\
